@@ -508,7 +508,7 @@ func runShard(p core.Prop, sh *shardState, bin, tier string, seed int64, of int,
 }
 
 var crashRe = regexp.MustCompile(`(?m)^(panic: [^\n]{0,120}|fatal error: [^\n]{0,120})`)
-var frameRe = regexp.MustCompile(`(?m)^(github\.com/filecoin-project/go-jsonrpc[^\s(]*)\(`)
+var frameRe = regexp.MustCompile(`(?m)^(github\.com/filecoin-project/go-jsonrpc[\w./]*(?:\(\*?\w+\))?[\w.]*)\(`)
 
 func crashSite(stderr string) string {
 	m := crashRe.FindString(stderr)
@@ -592,7 +592,7 @@ func scanRace(dir string) (int, map[string]string) {
 	lib := map[string]string{}
 	total := 0
 	files, _ := filepath.Glob(filepath.Join(dir, "race.*"))
-	fnRe := regexp.MustCompile(`^\s+(github\.com/filecoin-project/go-jsonrpc[^\s(]*)\(`)
+	fnRe := regexp.MustCompile(`^\s+(github\.com/filecoin-project/go-jsonrpc[\w./]*(?:\(\*?\w+\))?[\w.]*)\(`)
 	for _, f := range files {
 		b, err := os.ReadFile(f)
 		if err != nil {
